@@ -66,9 +66,14 @@ def eval_cases(path):
         variants.setdefault("dtypes_tried", {})[f] = tried
     print(json.dumps({"results": out, "variants": variants}))
 
+GRID_DTYPE = [np.int64]
+
+
 def grid(*ns):
+    """complete grid; every column in the current sweep dtype when it can hold the column's values (else int64)"""
+    dt = GRID_DTYPE[0]
     g = np.meshgrid(*[np.arange(n, dtype=np.int64) for n in ns], indexing="ij")
-    return [x.ravel() for x in g]
+    return [x.ravel().astype(dt) if n - 1 <= np.iinfo(dt).max - 3 else x.ravel() for x, n in zip(g, ns)]
 
 def sweep(tier, seed):
     rng = np.random.default_rng(seed)
@@ -86,37 +91,44 @@ def sweep(tier, seed):
     def tags(det_name, w, args):
         for k, fn in checks.items():
             expect(f"check_{k}_id(get_{det_name})", fn(w), np.full(w.shape, k == det_name), args)
-    # complete in-range field spaces
-    wire, layer, wt = grid(512, 64, 2)
-    w = d.get_mdc_digi_id(wire, layer, wt); a = [wire, layer, wt]
-    expect("mdc wire rt", d.mdc_id_to_wire(w), wire, a); expect("mdc layer rt", d.mdc_id_to_layer(w), layer, a)
-    expect("mdc stereo rt", d.mdc_id_to_is_stereo(w), wt == 1, a); tags("mdc", w, a)
-    part, l, p, e = grid(3, 2, 128, 2)
-    w = d.get_tof_digi_id(part, l, p, e); a = [part, l, p, e]
-    expect("tof part rt", d.tof_id_to_part(w), part, a)
-    expect("tof layer rt", d.tof_id_to_layer_or_module(w), l, a); expect("tof layer rt(part)", d.tof_id_to_layer_or_module(w, part), l, a)
-    expect("tof phi rt", d.tof_id_to_phi_or_strip(w), p, a); expect("tof phi rt(part)", d.tof_id_to_phi_or_strip(w, part), p, a)
-    expect("tof end rt", d.tof_id_to_end(w), e, a); tags("tof", w, a)
-    part, l, p, e = grid(2, 64, 16, 2); part = part + 3
-    w = d.get_tof_digi_id(part, l, p, e); a = [part, l, p, e]
-    expect("mrpc part rt", d.tof_id_to_part(w), part, a)
-    expect("mrpc module rt", d.tof_id_to_layer_or_module(w), l, a); expect("mrpc module rt(part)", d.tof_id_to_layer_or_module(w, part), l, a)
-    expect("mrpc strip rt", d.tof_id_to_phi_or_strip(w), p, a); expect("mrpc strip rt(part)", d.tof_id_to_phi_or_strip(w, part), p, a)
-    expect("mrpc end rt", d.tof_id_to_end(w), e, a); tags("tof", w, a)
-    m, t, p = grid(16, 64, 256)
-    w = d.get_emc_digi_id(m, t, p); a = [m, t, p]
-    expect("emc module rt", d.emc_id_to_module(w), m, a); expect("emc theta rt", d.emc_id_to_theta(w), t, a)
-    expect("emc phi rt", d.emc_id_to_phi(w), p, a); tags("emc", w, a)
-    pa, s, l, c = grid(16, 16, 16, 256)
-    w = d.get_muc_digi_id(pa, s, l, c); a = [pa, s, l, c]
-    expect("muc part rt", d.muc_id_to_part(w), pa, a); expect("muc seg rt", d.muc_id_to_segment(w), s, a)
-    expect("muc layer rt", d.muc_id_to_layer(w), l, a); expect("muc chan rt", d.muc_id_to_channel(w), c, a)
-    expect("muc gap rt", d.muc_id_to_gap(w), l, a); expect("muc strip rt", d.muc_id_to_strip(w), c, a); tags("muc", w, a)
-    l, sh, st, f = grid(8, 8, 4096, 2)
-    for flag in (f, f.astype(bool)):
-        w = d.get_cgem_digi_id(l, sh, st, flag); a = [l, sh, st, f]
-        expect("cgem layer rt", d.cgem_id_to_layer(w), l, a); expect("cgem sheet rt", d.cgem_id_to_sheet(w), sh, a)
-        expect("cgem strip rt", d.cgem_id_to_strip(w), st, a); expect("cgem isx rt", d.cgem_id_to_is_x_strip(w), f == 1, a); tags("cgem", w, a)
+    # complete in-range field spaces, repeated under EVERY integer dtype able to hold the field values: validates the translator's
+    # rule that numba's typed (>= 64-bit) evaluation equals the unbounded Z model after the final mask / cast
+    def field_spaces():
+        wire, layer, wt = grid(512, 64, 2)
+        w = d.get_mdc_digi_id(wire, layer, wt); a = [wire, layer, wt]
+        expect("mdc wire rt", d.mdc_id_to_wire(w), wire, a); expect("mdc layer rt", d.mdc_id_to_layer(w), layer, a)
+        expect("mdc stereo rt", d.mdc_id_to_is_stereo(w), wt == 1, a); tags("mdc", w, a)
+        part, l, p, e = grid(3, 2, 128, 2)
+        w = d.get_tof_digi_id(part, l, p, e); a = [part, l, p, e]
+        expect("tof part rt", d.tof_id_to_part(w), part, a)
+        expect("tof layer rt", d.tof_id_to_layer_or_module(w), l, a); expect("tof layer rt(part)", d.tof_id_to_layer_or_module(w, part), l, a)
+        expect("tof phi rt", d.tof_id_to_phi_or_strip(w), p, a); expect("tof phi rt(part)", d.tof_id_to_phi_or_strip(w, part), p, a)
+        expect("tof end rt", d.tof_id_to_end(w), e, a); tags("tof", w, a)
+        part, l, p, e = grid(2, 64, 16, 2); part = part + 3
+        w = d.get_tof_digi_id(part, l, p, e); a = [part, l, p, e]
+        expect("mrpc part rt", d.tof_id_to_part(w), part, a)
+        expect("mrpc module rt", d.tof_id_to_layer_or_module(w), l, a); expect("mrpc module rt(part)", d.tof_id_to_layer_or_module(w, part), l, a)
+        expect("mrpc strip rt", d.tof_id_to_phi_or_strip(w), p, a); expect("mrpc strip rt(part)", d.tof_id_to_phi_or_strip(w, part), p, a)
+        expect("mrpc end rt", d.tof_id_to_end(w), e, a); tags("tof", w, a)
+        m, t, p = grid(16, 64, 256)
+        w = d.get_emc_digi_id(m, t, p); a = [m, t, p]
+        expect("emc module rt", d.emc_id_to_module(w), m, a); expect("emc theta rt", d.emc_id_to_theta(w), t, a)
+        expect("emc phi rt", d.emc_id_to_phi(w), p, a); tags("emc", w, a)
+        pa, s, l, c = grid(16, 16, 16, 256)
+        w = d.get_muc_digi_id(pa, s, l, c); a = [pa, s, l, c]
+        expect("muc part rt", d.muc_id_to_part(w), pa, a); expect("muc seg rt", d.muc_id_to_segment(w), s, a)
+        expect("muc layer rt", d.muc_id_to_layer(w), l, a); expect("muc chan rt", d.muc_id_to_channel(w), c, a)
+        expect("muc gap rt", d.muc_id_to_gap(w), l, a); expect("muc strip rt", d.muc_id_to_strip(w), c, a); tags("muc", w, a)
+        l, sh, st, f = grid(8, 8, 4096, 2)
+        for flag in (f, f.astype(bool)):
+            w = d.get_cgem_digi_id(l, sh, st, flag); a = [l, sh, st, f]
+            expect("cgem layer rt", d.cgem_id_to_layer(w), l, a); expect("cgem sheet rt", d.cgem_id_to_sheet(w), sh, a)
+            expect("cgem strip rt", d.cgem_id_to_strip(w), st, a); expect("cgem isx rt", d.cgem_id_to_is_x_strip(w), f == 1, a); tags("cgem", w, a)
+    for _dt in (np.int64, np.uint8, np.int8, np.uint16, np.int16, np.uint32, np.int32, np.uint64):
+        GRID_DTYPE[0] = _dt
+        field_spaces()
+    GRID_DTYPE[0] = np.int64
+
     # truncation / no leak: over-wide and negative values
     n = 200000 if tier == "quick" else 2000000
     big = lambda: rng.integers(-2**40, 2**40, n)
